@@ -27,13 +27,20 @@ ASSUMPTIONS = [
 ]
 
 
-def texvm_part(ctx, n, seed_offset, name="TexVM.whole_programs", cut=False):
+# C07 decides its own findings on whole programs: TeX's side is taken (cfg with "DecideC07"), and a run the strict
+# model rejects is a KNOWN-FINDING only if the model with the recorded deviation predicts exactly what the VM did
+C07_CFG = "Trace_TexVM_C07.cfg"
+C07_DEVS = {"no-relax-before-early-else": "Trace_TexVM_C07_dev1.cfg",
+            "let-to-undefined-is-no-op": "Trace_TexVM_C07_dev2.cfg"}
+
+
+def texvm_part(ctx, n, seed_offset, name="TexVM.whole_programs", cut=False, cfg="Trace_TexVM.cfg", devs=None):
     """cut=True: every program is written as two lines; the first is run to the end of its input, the VM is
     serialised and deserialised (JSON / MessagePack / bincode / not at all, rotating), the second line runs on the
     result; the model runs the first part, then the second part from the state that is left."""
     ev = ctx.work / ("texvm-cut.ndjson" if cut else "texvm.ndjson")
     vh(["tv-events", f"seed={ctx.seed * 7919 + seed_offset}", f"n={n}", f"out={ev}"] + (["cut=1"] if cut else []))
-    nev, bad = validate_calls(ctx, "Trace_TexVM", "Trace_TexVM.cfg", ev, parts=max(1, min(NCPU - 2, n // 600 + 1)))
+    nev, bad = validate_calls(ctx, "Trace_TexVM", cfg, ev, parts=max(1, min(NCPU - 2, n // 600 + 1)))
 
     def desc(e, v):
         def show(cs):
@@ -42,7 +49,7 @@ def texvm_part(ctx, n, seed_offset, name="TexVM.whole_programs", cut=False):
         return (f"whole program ({v['key']}) {e['src']!r}: VM delivered {show(e['out'])!r} errat={e['errat']} "
                 f"fatal={e['fatal']} finals={e['finals']}; TexVM says {show(w.get('out', []))!r} "
                 f"err={w.get('err')!r} registers={w.get('cnt')}")
-    nskip = judge_calls(ctx, bad, "Trace_TexVM", {}, desc)
+    nskip = judge_calls(ctx, bad, "Trace_TexVM", devs or {}, desc)
     errs = sum(1 for ln in open(ev) if '"fatal":1' in ln or '"errat":-1' not in ln)
     extra = {}
     if cut:
@@ -87,7 +94,7 @@ def repo_root():
     return Path(m.group(1)) if m else Path("/repo")
 
 
-def texvm_suite(ctx):
+def texvm_suite(ctx, cfg="Trace_TexVM.cfg", devs=None):
     """The repository's own test inputs as traces: every one-line raw string with a backslash in the test
     modules of texlang, texlang-stdlib and texlang-testing is offered to `vh tv-suite`, which keeps those inside
     the model's vocabulary, runs them on the VM and records them like generated programs."""
@@ -105,17 +112,20 @@ def texvm_suite(ctx):
                 snips.add(t)
     if len(snips) < 50:
         raise ToolError(f"only {len(snips)} test snippets found under {root}")
+    # the inputs the recorded findings of C07 were reported on (so that each shows in every run)
+    snips |= {r"\let\va=\fi \let\va=\vh \iffalse a\va b\fi c", r"\ifnum 1=1\else a\fi b", r"\ifodd 3\fi b",
+              r"\iftrue\ifnum 1=1\else a\fi b\fi c", r"\ifcase 0\or b\else c\fi d"}
     inp = ctx.work / "snips.json"
     inp.write_text(json.dumps(sorted(snips)))
     ev = ctx.work / "suite.ndjson"
     vh(["tv-suite", f"in={inp}", f"out={ev}"])
-    nev, bad = validate_calls(ctx, "Trace_TexVM", "Trace_TexVM.cfg", ev, parts=1)
+    nev, bad = validate_calls(ctx, "Trace_TexVM", cfg, ev, parts=1)
 
     def desc(e, v):
         w = v.get("want", {})
         return (f"test input of the repository ({v['key']}) {e['src']!r}: VM delivered {e['out']} errat={e['errat']} "
                 f"fatal={e['fatal']} finals={e['finals']}; TexVM says {w.get('out')} err={w.get('err')!r} "
                 f"registers={w.get('cnt')}")
-    nskip = judge_calls(ctx, bad, "Trace_TexVM", {}, desc)
+    nskip = judge_calls(ctx, bad, "Trace_TexVM", devs or {}, desc)
     ctx.add_bound("TexVM.repository_test_inputs", nev - nskip, nev - nskip, snippets_found=len(snips),
                   skipped_outside_model=nskip)
